@@ -255,6 +255,7 @@ def run(ctx):
     rule6(ctx, prog, flows)
     rule7(ctx, prog, flows, all_sites)
     rule8(ctx, prog, flows)
+    rule12(ctx, prog, flows)
     from engines import check_unwrapped_callee_kinds
 
     from props.c15 import subgraph_edge_source
@@ -1098,3 +1099,43 @@ def run_once(ctx):
         return
     ctx.require(ours_u >= cu, "R-C20-4x", "unwrap-count", "MIR inventory has %d unwrap/expect sites, clippy reports %d" % (ours_u, cu), "the MIR inventory has fewer unwrap/expect sites (%d) than clippy reports (%d): the extractor misses sites" % (ours_u, cu))
     ctx.require(ours_i >= ci, "R-C20-4x", "index-count", "MIR inventory has %d index sites, clippy reports %d" % (ours_i, ci), "the MIR inventory has fewer indexing sites (%d) than clippy reports (%d): the extractor misses sites" % (ours_i, ci))
+
+
+def rule12(ctx, prog, flows):
+    """a vector with one slot per EDGE (its length derives from size() / number_of_edges() / get_all_edges().len()) must
+    not be indexed by a node position: on a graph with fewer edges than nodes (a tree, isolated nodes) the index is out of
+    bounds"""
+    from flow import desc_mentions
+
+    ctx.rule("R-C20-12", "no vector whose length is an edge count is indexed by a node position")
+    n = 0
+
+    def edge_count(d):
+        return desc_mentions(d, lambda x: x[0] == "call" and (x[1].split("::")[-1] in ("number_of_edges", "size") and "Graph" in x[1])) or desc_mentions(d, lambda x: x[0] == "call" and x[1].split("::")[-1] == "len" and desc_mentions(x, lambda y: y[0] == "call" and y[1].split("::")[-1] == "get_all_edges"))
+
+    for p in sorted(prog.bodies):
+        b = prog.bodies[p]
+        fl = flows.of(b)
+        for t in b.calls():
+            if not (t.callee and t.callee.short.endswith("vec::from_elem") and len(t.args) >= 2) or t.dest.proj:
+                continue
+            d = norm(panic.expand_names(fl, norm(fl.describe(t.args[1], depth=10))))
+            if not edge_count(d):
+                continue
+            n += 1
+            V = ("L", t.dest.local)
+            vs = {("L", c) for c in fl.copies_of(t.dest.local)}
+            bad = None
+            for u in b.calls():
+                if not u.callee or u.callee.short not in panic.INDEXERS or len(u.args) < 2:
+                    continue
+                if not (set(fl._operand_pts(u.args[0])) & vs):
+                    continue
+                sl = fl.slice_local(fl._op_reads(u.args[1]), data_only=True)
+                pos = any(x[0] == "SRC" and "node_index" in x[2] for x in sl) or any(x[0] == "CALL" and b.blocks[x[1]].term.callee and b.blocks[x[1]].term.callee.short.split("::")[-1] in ("get_node_index",) for x in sl) or any(x[0] == "L" and isinstance(x[1], int) and 1 <= x[1] <= b.arg_count and b.local_ty(x[1]) == "usize" for x in sl)
+                if pos:
+                    bad = u
+                    break
+            ctx.require(bad is None, "R-C20-12", "edge-sized|%s|%s" % (panic.root_fn_short(b), b.local_name(t.dest.local) or "_"), "the edge-sized vector `%s` in %s is not indexed by node positions" % (b.local_name(t.dest.local) or "_", b.short.split("::")[-1]),
+                        "%s allocates `%s` with one slot per EDGE (%s) and indexes it by a node position: on a graph with fewer edges than nodes (a tree, a path, isolated nodes, a single node) the index is out of bounds and the call panics" % (b.short, b.local_name(t.dest.local) or "_", fmt_desc(d)[:80]), loc_str((bad or t).span))
+    ctx.counters["edge_sized_vectors"] = n
